@@ -20,6 +20,17 @@ def run(tier, seed, replay=None):
     v = vlib.Verdict(pid, tier, seed)
     r = vlib.tlc_must_pass(SPEC, "ControlSession_c15.cfg", wd, workers=1, timeout=600)
     wit = [] if replay else vlib.witnesses(SPEC, "ControlSession_c15.cfg", ["W15_NoRefusal"] if tier == "quick" else ["W15_NoRemoteEffect", "W15_NoUnixBypass", "W15_NoRefusal"], wd, workers=1)
+    # the token life-cycle: one token used again while time passes (and after a restart); a verifier that remembers tokens must be refuted
+    rq = vlib.tlc_must_pass(SPEC, "ControlSession_c15seq.cfg", wd, workers=2, timeout=600)
+    seqs = os.path.join(rq.dir, "c15seq.ndjson")
+    nseq = sum(1 for _ in open(seqs))
+    if not replay:
+        rc = vlib.tlc(SPEC, "ControlSession_c15seq_cache.cfg", wd, workers=1, timeout=600)
+        if rc.violated != "NoEffectWithoutTokenSeq":
+            raise vlib.Inconclusive("the model of a verifier that remembers tokens did not violate NoEffectWithoutTokenSeq: exit %s\n%s" % (rc.exit, rc.output[-1200:]))
+        wit.append("VerifierRemembersTokens refuted")
+        if tier != "quick":
+            wit += vlib.witnesses(SPEC, "ControlSession_c15seq.cfg", ["W15Seq_NoReplayRefused"], wd, workers=1)
     vectors = os.path.join(r.dir, "c15.ndjson")
     nvec = sum(1 for _ in open(vectors))
     if nvec != r.distinct:
@@ -28,6 +39,9 @@ def run(tier, seed, replay=None):
     quick = tier == "quick"
     inst = 1 if quick else 2
     args = ["c15", "-vectors", vectors, "-receptor", vctl_common.receptor_copy(wd), "-work", wd, "-seed", str(seed), "-instances", str(inst)]
+    args += ["-seqs", seqs]
+    if not quick:
+        args += ["-seqall"]
     if quick:
         # seeded stratified subset: two rotating token classes in every (command, connection, work type) cell, plus valid and
         # absent in the cells the property protects
@@ -40,14 +54,19 @@ def run(tier, seed, replay=None):
     if res.get("inconclusive") and not v.violations:
         raise vlib.Inconclusive("; ".join(res["inconclusive"][:5]))
     planned = res["counters"].get("vectors", 0) * inst
-    if not replay and not v.violations and (res["evaluations"] != planned or (not quick and planned != nvec * inst) or planned < 75 * 2 * inst):
-        raise vlib.Inconclusive("harness evaluated %d of %d planned vector instances (table %d)" % (res["evaluations"], planned, nvec))
+    nsu = res["counters"].get("seq_uses", 0)
+    if not replay and not v.violations and (res["counters"].get("seq_replays_refused", 0) == 0 or res["counters"].get("seq_valid_reuse", 0) == 0
+                                            or res["counters"].get("seq_not_established", 0) > res["counters"].get("sequences", 0) // 3):
+        raise vlib.Inconclusive("sequence phase vacuous or not established: %s" % res["counters"])
+    if not replay and not v.violations and (res["evaluations"] != planned + nsu or (not quick and planned != nvec * inst) or planned < 75 * 2 * inst):
+        raise vlib.Inconclusive("harness evaluated %d of %d planned vector instances + %d sequence uses (table %d)" % (res["evaluations"], planned, nsu, nvec))
     c = res["counters"]
     if not replay and (c.get("effects_confirmed", 0) == 0 or c.get("refusals_confirmed", 0) == 0):
         if not res["violations"]:
             raise vlib.Inconclusive("vacuous run: effects %s refusals %s" % (c.get("effects_confirmed"), c.get("refusals_confirmed")))
     cov = {
-        "states": r.distinct, "transitions": r.generated, "traces_validated_against_impl": 0,
+        "states": r.distinct + rq.distinct, "transitions": r.generated + rq.generated, "traces_validated_against_impl": 0,
+        "token_sequences_enumerated": nseq, "token_sequences_replayed": res["counters"].get("sequences", 0),
         "evaluations": res["evaluations"], "distinct_nontrivial": res["distinct"],
         "rule": "TLC enumerates every (command, connection kind, work-type class, token class) vector of ControlSession.tla part c15; " +
                 ("quick: a seeded stratified subset (every one of the 75 command x connection x work-type cells with two token classes rotating with "
@@ -55,8 +74,10 @@ def run(tier, seed, replay=None):
                 "executed %d time(s) on the real daemon with freshly built tokens (valid: RS512/RS256/PS384 by the configured key; expired; other audience "
                 "incl. none/empty/upper-case; other key; alg none with and without a borrowed signature; HS256/HS512 keyed with the public-key PEM; "
                 "truncated; empty; garbage) and a live unit of the class; effect = new unit / state change / runner pid gone / directory removed / "
-                "stream bytes received, from snapshots taken over the Unix socket and the file system; distinct = distinct (vector, token variant, "
-                "request form)" % inst,
+                "stream bytes received, from snapshots taken over the Unix socket and the file system. Then token life-cycle sequences of part c15seq "
+                "(use a, [tick past expiry, [restart]], use b - all 300 in thorough, the same-command, submit-token-for-other-command, reuse-while-valid "
+                "and after-restart ones in quick): a token living 3-4 s is accepted, and the identical string is replayed >= 1.5 s after its expiry; "
+                "distinct = distinct (vector, token variant, request form) + distinct sequences" % inst,
         "samples": (res.get("samples") or [{"note": "run stopped before sampling"}])[:6], "exhaustive": not quick, "vectors": nvec,
         "vectors_replayed": res["counters"].get("vectors", 0), "instances_per_vector": inst,
         "counters": c, "witnesses": wit,
